@@ -75,7 +75,7 @@ def gen(t, rnd, depth=0):
         return None if rnd.random() < 0.3 else gen(t.t, rnd, depth + 1)
     if n == "TList":
         return [gen(t.t, rnd, depth + 1) for _ in range(rnd.randint(0, 3))]
-    if n == "TDict":
+    if n in ("TDict", "TODict"):
         return {_hashable(gen(t.k, rnd, depth + 1)): gen(t.v, rnd, depth + 1) for _ in range(rnd.randint(0, 3))}
     if n == "TRec" and t.cls == "nx.Graph" or (n == "TRec" and "nodes" in t.fields and "adj" in t.fields):
         nodes = {k: gen(t.fields["nodes"].v, rnd, depth + 1) for k in rnd.sample(range(6), rnd.randint(0, 5))}
@@ -145,7 +145,7 @@ def lift_t(x, t, eng):
                 arr = z3.Store(arr, j, lift(float(a[r, j])).term() if hasattr(lift(float(a[r, j])), "term") else z3.RealVal(str(a[r, j])))
             comps.append(arr)
         return SMat(a.shape[0], a.shape[1], comps)
-    if n in ("TDict", "TDefaultDict"):
+    if n in ("TDict", "TDefaultDict", "TODict"):
         ks = key_sort_of(t.k)
         dom = z3.K(ks, False)
         comps = [z3.K(ks, z3.FreshConst(srt, "d")) for srt in t.v.sorts()]
@@ -176,7 +176,7 @@ def realize(x, t):
         return tuple(realize(e, s) for e, s in zip(x, t.ts))
     if n == "TList":
         return [realize(e, t.t) for e in x]
-    if n in ("TDict", "TDefaultDict"):
+    if n in ("TDict", "TDefaultDict", "TODict"):
         return {k: realize(v, t.v) for k, v in x.items()}
     if n == "TRec":
         if "nodes" in t.fields and "adj" in t.fields:
@@ -198,7 +198,8 @@ def realize(x, t):
         if t.cls == "Interaction":
             return pytypes.SimpleNamespace(**{f: realize(v, t.fields[f]) for f, v in x.items()})
         if ":" not in t.cls:
-            return {f: realize(v, t.fields[f]) for f, v in x.items()}
+            # a mapping-like record: an optional field that is absent is a key that is not there
+            return {f: realize(v, t.fields[f]) for f, v in x.items() if not (v is None and type(t.fields[f]).__name__ == "TOpt")}
         raise NotImplementedError(f"record {t.cls}")
     return x
 
@@ -487,7 +488,7 @@ def unrealize(v, t):
         return [unrealize(e, t.t) for e in v]
     if n == "TTuple":
         return tuple(unrealize(e, s) for e, s in zip(v, t.ts))
-    if n in ("TDict", "TDefaultDict"):
+    if n in ("TDict", "TDefaultDict", "TODict"):
         return {k: unrealize(x, t.v) for k, x in v.items()}
     if n == "TRec" and "nodes" in t.fields and "adj" in t.fields and isinstance(v, nx.Graph):
         out = {"nodes": {k: {f: (d.get(f) if f in d else None) for f in t.fields["nodes"].v.fields} for k, d in v.nodes(data=True)},
